@@ -20,7 +20,7 @@ func init() { register("walk", cmdWalk) }
 type walkRec struct {
 	Par     []int   `json:"par"`
 	Blk     []bool  `json:"blk"`
-	VRoot   bool    `json:"vroot"`
+	VNode   int     `json:"vnode"` // the node presented as the zero Node (0: none, 1: the root, 2: the root's first child)
 	Prune   []int   `json:"prune"`
 	Abort   int     `json:"abort"`
 	PreNil  bool    `json:"preNil"`
@@ -56,7 +56,7 @@ func runVirtual(r *walkRec) (calls [][]int, pm string) {
 	bi, ii := 0, 0
 	for i := 1; i <= n; i++ {
 		switch {
-		case i == 1 && r.VRoot:
+		case i == r.VNode:
 			nodes[i] = commonmark.Node{}
 		case r.Blk[i-1]:
 			nodes[i] = poolBlocks[bi]
@@ -123,12 +123,12 @@ func walkCheckModel(res *Result, r *walkRec) {
 	if len(modelHistory) > 2 {
 		modelHistory = modelHistory[1:]
 	}
-	key := fmt.Sprint(r.Par, r.Blk, r.VRoot, r.Prune, r.Abort, r.PreNil, r.PostNil)
+	key := fmt.Sprint(r.Par, r.Blk, r.VNode, r.Prune, r.Abort, r.PreNil, r.PostNil)
 	if len(r.Par) >= 3 {
 		res.nontrivialKey(key)
 	}
 	if len(r.Par) >= 4 && len(r.Prune) == 1 && r.Abort > 1 && !r.PreNil && !r.PostNil {
-		res.sample(map[string]any{"par": r.Par, "blk": r.Blk, "vroot": r.VRoot, "prune": r.Prune, "abort": r.Abort, "calls": r.Calls})
+		res.sample(map[string]any{"par": r.Par, "blk": r.Blk, "vnode": r.VNode, "prune": r.Prune, "abort": r.Abort, "calls": r.Calls})
 	}
 	if pm != "" {
 		res.addCandidate(Candidate{Sig: map[string]any{"class": "panic", "case": key}, Record: rec, What: "Walk panicked: " + pm})
@@ -136,7 +136,7 @@ func walkCheckModel(res *Result, r *walkRec) {
 	}
 	if fmt.Sprint(got) != fmt.Sprint(r.Calls) {
 		res.addCandidate(Candidate{Sig: map[string]any{"case": key}, Record: rec,
-			What: fmt.Sprintf("tree par=%v blk=%v vroot=%v prune=%v abort=%d preNil=%v postNil=%v: spec calls %v, Walk made %v", r.Par, r.Blk, r.VRoot, r.Prune, r.Abort, r.PreNil, r.PostNil, r.Calls, got)})
+			What: fmt.Sprintf("tree par=%v blk=%v vnode=%v prune=%v abort=%d preNil=%v postNil=%v: spec calls %v, Walk made %v", r.Par, r.Blk, r.VNode, r.Prune, r.Abort, r.PreNil, r.PostNil, r.Calls, got)})
 	}
 }
 
